@@ -93,6 +93,18 @@ def run_pty(argv, cols, rows, python=None, timeout=20, console_script=False):
                     break
                 chunks.append(data)
             elif p.poll() is not None:
+                # the child is gone: take what it wrote between the last look and its end
+                while True:
+                    r, _, _ = select.select([master], [], [], 0.05)
+                    if not r:
+                        break
+                    try:
+                        data = os.read(master, 65536)
+                    except OSError:
+                        break
+                    if not data:
+                        break
+                    chunks.append(data)
                 break
         timed_out = False
         try:
